@@ -57,6 +57,13 @@ def run(chk):
     chk.validate('inline-pa', 'Trace_MM', 'Trace_MM.cfg', irecs, driver='mm', jobs=12)
     # helpers the aligners build on (interleave, sample_random_mapping, ...): Utils.tla
     chk.mc('layout-helpers', 'MC_Utils', 'MC_Utils.cfg', workers=8)
+    # alignment inside EM (hooked CACGMM fits with an inline aligner, with and without a source-activity mask): the align
+    # event must be a pure class reordering of the E-step event, for posteriors and quadratic forms alike
+    erecs = core.run_driver_parallel('em', tier=chk.tier, seed=chk.seed, cases=core.run_cases('em', chk.tier, chk.seed, dict(prop='C14')),
+                                     jobs=8, timeout=3000)
+    arecs = [r for r in erecs if r['kind'] == 'apply']
+    if arecs:
+        chk.validate('em-inline-alignment', 'Trace_Align', 'Trace_Align.cfg', arecs, driver='em', jobs=4)
     # generalised reshape: the exhaustive instance MC_Reshape is the case set (TLC dump replayed into pb_bss.utils.reshape)
     from ..casegen import reshape_cases
     states, res = core.tlc_dump_states('MC_Reshape', 'MC_Reshape_q.cfg' if q else 'MC_Reshape.cfg', workers=8)
